@@ -163,6 +163,8 @@ pub enum BadAnchorReason {
     NoDefault,
     // top_0 looks like a ligature base, but 0 is an invalid index
     ZeroIndex,
+    // top_99999999999: a ligature cannot have that many components
+    IndexTooLarge,
     // _top_1 looks like a numbered mark, which is not allowed
     NumberedMarkAnchor,
     // _ is not a valid group name
@@ -189,6 +191,9 @@ impl Display for BadAnchorReason {
         match self {
             BadAnchorReason::NoDefault => write!(f, "no value at default location"),
             BadAnchorReason::ZeroIndex => write!(f, "ligature indexes must begin with '1'"),
+            BadAnchorReason::IndexTooLarge => {
+                write!(f, "ligature indexes cannot exceed {}", u16::MAX)
+            }
             BadAnchorReason::NumberedMarkAnchor => write!(f, "mark anchors cannot be numbered"),
             BadAnchorReason::NilMarkGroup => write!(f, "mark anchor key is nil"),
         }
